@@ -148,6 +148,7 @@ func (db *DB) collectGarbage() (collectedCount uint64, done bool, err error) {
 	defer totalTimeMetric(db.metrics.TotalTimeGCLock, time.Now())
 
 	currentCollectedCount := uint64(0)
+	releasedCount := uint64(0)
 	recycledItems := make([]shed.Item, 0)
 
 	// without batchMu lock, call chunkinfo to remove chunks
@@ -252,17 +253,21 @@ func (db *DB) collectGarbage() (collectedCount uint64, done bool, err error) {
 		}
 
 		currentCollectedCount++
+		// gcSize is the sum of the counters in the gc index, so it shrinks
+		// by exactly the counter of every entry that leaves the index
+		releasedCount += item.GCounter
 	}
 
 	// if gcIndex missing, we should set gcSize to zero.
 	if len(recycledItems) == 0 {
 		// force gc clean
 		currentCollectedCount = gcSize
+		releasedCount = gcSize
 	}
 
 	currentSize := uint64(0)
-	if currentCollectedCount <= gcSize {
-		currentSize = gcSize - currentCollectedCount
+	if releasedCount <= gcSize {
+		currentSize = gcSize - releasedCount
 	}
 
 	if currentSize > target {
